@@ -144,7 +144,8 @@ class BaseFunctionSpace(AbstractFunctionSpace, UFLObject):
 
     def __repr__(self):
         """Representation."""
-        return f"BaseFunctionSpace({self._ufl_domain!r}, {self._ufl_element!r})"
+        label = f", label={self._label!r}" if self._label else ""
+        return f"BaseFunctionSpace({self._ufl_domain!r}, {self._ufl_element!r}{label})"
 
     @property
     def value_shape(self) -> tuple[int, ...]:
@@ -177,7 +178,8 @@ class FunctionSpace(BaseFunctionSpace, UFLObject):
 
     def __repr__(self):
         """Representation."""
-        return f"FunctionSpace({self._ufl_domain!r}, {self._ufl_element!r})"
+        label = f", label={self._label!r}" if self._label else ""
+        return f"FunctionSpace({self._ufl_domain!r}, {self._ufl_element!r}{label})"
 
     def __str__(self):
         """String."""
@@ -208,7 +210,8 @@ class DualSpace(BaseFunctionSpace, UFLObject):
 
     def __repr__(self):
         """Representation."""
-        return f"DualSpace({self._ufl_domain!r}, {self._ufl_element!r})"
+        label = f", label={self._label!r}" if self._label else ""
+        return f"DualSpace({self._ufl_domain!r}, {self._ufl_element!r}{label})"
 
     def __str__(self):
         """String."""
